@@ -341,6 +341,10 @@ class screen:
 
         if self.scroll_row_start <= 0:
             self.scroll_row_start = 1
+        if self.scroll_row_start > self.rows:
+            self.scroll_row_start = self.rows
+        if self.scroll_row_end <= 0:
+            self.scroll_row_end = 1
         if self.scroll_row_end > self.rows:
             self.scroll_row_end = self.rows
 
